@@ -41,11 +41,12 @@ func mutate(t *simrt.Tape, s string, rate int) string {
 }
 
 type cmdCase struct {
-	Name   string
-	Files  map[string][]byte // input files by relative name
-	Args   []string          // functional options; "$D/" prefixes files
-	Inputs []string          // positional input files
-	OutOpt bool              // add "-o $D/out" (otherwise stdout)
+	Name     string
+	Files    map[string][]byte // input files by relative name
+	Args     []string          // functional options; "$D/" prefixes files
+	Inputs   []string          // positional input files
+	OutOpt   bool              // add "-o $D/out" (otherwise stdout)
+	Compress bool              // add "-Z"
 }
 
 func fastaText(recs []Rec, jsonHead bool) []byte {
@@ -82,6 +83,16 @@ func drawCmdCase(t *simrt.Tape, name string, thorough bool) cmdCase {
 	if t.Choose(6) == 5 {
 		// enough records for many batches to be in flight at once (every worker busy)
 		n = 150 + t.Choose(200)
+	}
+	switch name {
+	case "obiconvert", "obigrep", "obiannotate", "obicomplement":
+		if t.Choose(6) == 5 {
+			// compressed output: the bytes of the .gz stream are part of the output too
+			c.Compress = true
+			if t.Choose(2) == 1 {
+				n = 900 + t.Choose(600) // more than one compression block
+			}
+		}
 	}
 	fastq := t.Choose(2) == 1
 	switch name {
@@ -362,6 +373,9 @@ func (c cmdCase) spec(dir string, p parCfg) CmdSpec {
 	args := p.cpuArgs()
 	for _, a := range c.Args {
 		args = append(args, sub(a))
+	}
+	if c.Compress {
+		args = append(args, "-Z")
 	}
 	if c.OutOpt {
 		args = append(args, "-o", filepath.Join(dir, "out.fastx"))
